@@ -129,6 +129,43 @@ void h_pipe_big(void) {
   VF_REACH();
 }
 
+/* integer pipeline with an in-place resize: v (3 limbs of storage) keeps its first KEEP limbs and is zero-extended to 3 limbs inside its own buffer by
+ * vec_znx_copy(res = a = v), negated in place, added to y and normalized: digits of (-trunc_KEEP(v) + y).   -DKEEP=<1|2|3> */
+#ifndef KEEP
+#define KEEP 2
+#endif
+void h_pipe_copy(void) {
+  MODULE mod;
+  vf_module_init_notables(&mod, NN, FFT64, AVX);
+  int64_t* v = (int64_t*)vf_alloc_words_raw(3 * NN);
+  int64_t* y = (int64_t*)vf_alloc_words_raw(3 * NN);
+  i128 e[3][NN];
+  for (uint64_t i = 0; i < 3 * NN; ++i) {
+    v[i] = vf_i64();
+    y[i] = vf_i64();
+    VF_ASSUME(v[i] >= -(INT64_C(1) << 60) && v[i] <= (INT64_C(1) << 60));
+    VF_ASSUME(y[i] >= -(INT64_C(1) << 60) && y[i] <= (INT64_C(1) << 60));
+    e[i / NN][i % NN] = (i / NN < KEEP ? -(i128)v[i] : 0) + y[i];
+  }
+  int64_t* t = (int64_t*)vf_alloc_words(3 * NN);
+  int64_t* r = (int64_t*)vf_alloc_words(3 * NN);
+  uint8_t* tmp = (uint8_t*)vf_alloc_words(vec_znx_normalize_base2k_tmp_bytes(&mod) / 8);
+  vec_znx_copy(&mod, v, 3, NN, v, KEEP, NN);   /* in place: truncate to KEEP limbs, zero-extend to 3 */
+  vec_znx_negate(&mod, v, 3, NN, v, 3, NN);    /* in place */
+  vec_znx_add(&mod, t, 3, NN, v, 3, NN, y, 3, NN);
+  vec_znx_normalize_base2k(&mod, K, r, 3, NN, t, 3, NN, tmp);
+  for (uint64_t j = 0; j < NN; ++j) {
+    int64_t d2 = spec_digit(e[2][j]);
+    i128 c = (e[2][j] - d2) >> K;
+    int64_t d1 = spec_digit(e[1][j] + c);
+    c = (e[1][j] + c - d1) >> K;
+    int64_t d0 = spec_digit(e[0][j] + c);
+    VF_ASSERT(r[2 * NN + j] == d2 && r[NN + j] == d1 && r[j] == d0,
+              "pipeline in-place copy (truncate / zero-extend) -> in-place negate -> add -> normalize equals the digits of the ring expression");
+  }
+  VF_REACH();
+}
+
 uint64_t VF_X[ASZ * NN];
 __int128_t VF_R128[RSZ * NN];
 void h_pipe_ntt(void) {
